@@ -70,7 +70,11 @@ const EDGES: &[(&str, &str, bool)] = &[
     ("slices", "var v = [@O, [1], [2]]; print(v[0..2]); print((@O, 1, 2)[1..3]); print(\"héllo\"[1..3]);", false),
     ("module_attribute", "import \"m0\"; churn(); print(m0.val); print(m0.get()());", false),
     ("class_in_progress", "fn mk() { #[constructor(new)] class Big { fn a(self) { return [1]; } fn b(self) { return (2,); } fn c(self) { return || 3; } #[static] fn d() { return [4]; } } return Big.new(); } var h = mk(); churn(); print(h.a()); print(h.b()); print(h.c()()); print(type(h).d());", false),
-    ("range_cache", "var rs = []; for i in 0..12 { rs.push(i..i + 1); } churn(); print(rs); print(rs[0] == 0..1);", false),
+    ("range_cache", "var rs = []; for i in 0..12 { rs.push(i..(i + 1)); } churn(); print(rs); print(rs[0] == 0..1);", false),
+    ("range_iter_evicted", "var h = (100..104).iter(); var k = 1; while k <= 12 { var r = (0 - k)..6; k = k + 1; } churn(); print(h.next()); churn(); print(h.collect());", false),
+    ("range_loop_evicted", "var total = 0; for i in 200..203 { var k = 1; while k <= 12 { var r = (0 - k)..(6 + i); k = k + 1; } churn(); total = total + i; } print(total);", false),
+    ("range_in_container_evicted", "var h = [300..303, (400..401, 1)]; var k = 1; while k <= 12 { var r = (0 - k)..7; k = k + 1; } churn(); print(h); print(h[0].iter().collect());", false),
+    ("range_map_iter_evicted", "var h = (500..503).iter().map(|x| [x]); var k = 1; while k <= 12 { var r = (0 - k)..8; k = k + 1; } churn(); print(h.collect());", false),
     ("suspended_fiber_closure", "var g = nil; fn mk() { var f = Fiber.new(|| { var x = @O; g = || x; Fiber.yield(1); return 2; }); f.call(); return f; } var keepf = mk(); churn(); print(g()); print(keepf.call());", false),
     ("abandoned_suspended_fiber_closure", "var g = nil; fn mk() { var f = Fiber.new(|| { var x = @O; g = || x; Fiber.yield(1); return 2; }); f.call(); } mk(); churn(); print(g());", false),
     ("abandoned_fiber_closure", "var g = nil; fn mk() { var f = Fiber.new(|| { var x = @O; g = || x; return 1; }); f.call(); } mk(); churn(); print(g());", false),
